@@ -147,6 +147,25 @@ def _multi_helpers(ctx, ci):
                 norm(nxt.target) == _self(LEN) and norm(nxt.value) == norm(e[3]):
             ok, why = True, ''
     obs.append(Ob('SA-SEEK.position', '%s|parts are laid out back to back' % ent.qual, ok, ctx.loc(ent, ent.node), why))
+    # the start position of a part is the position its context left the handle at: `fp.tell()` is taken in the iteration
+    # that entered that context, with no other context entered in between (the parts of a file on the opened image share
+    # one handle; entering the next part moves it)
+    if len(apps) == 1 and apps[0].args and isinstance(apps[0].args[0], ast.Tuple) and len(apps[0].args[0].elts) == 4:
+        fpn = apps[0].args[0].elts[0]
+        st = ctx.enclosing_stmt(ent, apps[0])
+        par = ctx.parents(ent)
+        loop = par.get(id(st))
+        ok2, why2 = False, 'the handle whose position is recorded is not bound by `... = <context>.__enter__()` in the same loop iteration'
+        if isinstance(loop, ast.For) and isinstance(fpn, ast.Name):
+            enters = [x for x in ast.walk(loop) if isinstance(x, ast.Call) and isinstance(x.func, ast.Attribute) and x.func.attr == '__enter__']
+            binds = [x for x in loop.body if isinstance(x, ast.Assign) and isinstance(x.value, ast.Call) and isinstance(x.value.func, ast.Attribute) and
+                     x.value.func.attr == '__enter__' and fpn.id in cfgmod.target_names(x.targets[0]) and x.lineno < st.lineno]
+            if len(enters) == 1 and len(binds) == 1:
+                ok2, why2 = True, ''
+            elif not binds:
+                why2 = ('`%s` comes from `%s`, not from entering its context in this iteration: by the time `%s.tell()` is taken every part has been entered, and parts that '
+                        'share a handle (a multi-extent file on the opened image) all record the position of the last one' % (fpn.id, norm(loop.iter), fpn.id))
+        obs.append(Ob('SA-SEEK.position', '%s|the start of a part is read right after that part was entered' % ent.qual, ok2, ctx.loc(ent, st), why2))
     # --- _read_parts: every handle read is preceded, in its iteration, by fp, left = self._seek_part(off); off starts at
     #     self._offset and grows by the length of what was read; the size is min(left, wanted)
     g = ctx.cfg(rd)
@@ -509,6 +528,22 @@ def opendata(ctx):
         for c in _calls_in(n):
             if is_seek(c):
                 nseek += 1
+                if c.args and isinstance(c.args[0], ast.IfExp):
+                    # seek(A if <data on the original image> else B): both arms are judged, under the test's polarity
+                    from .. import expand as ex
+                    ie = c.args[0]
+                    t = norm(ex.expand(ctx, fi, ie.test, ctx.enclosing_stmt(fi, c), only='pure'))
+                    positive = ('==' in t and 'DATA_ON_ORIGINAL_ISO' in t) or ('!=' in t and 'DATA_IN_EXTERNAL_FP' in t)
+                    negative = ('!=' in t and 'DATA_ON_ORIGINAL_ISO' in t) or ('==' in t and 'DATA_IN_EXTERNAL_FP' in t)
+                    a, b = repr(lin(ie.body)), repr(lin(ie.orelse))
+                    if negative:
+                        a, b = b, a
+                    want_iso = repr(lin(ast.parse('self.ino.orig_extent_loc * self.logical_block_size', mode='eval').body))
+                    want_ext = repr(lin(ast.parse('self.ino.fp_offset', mode='eval').body))
+                    ok = (positive or negative) and a == want_iso and b == want_ext and (len(c.args) == 1 or norm(c.args[1]) in ('0', 'os.SEEK_SET'))
+                    obs.append(Ob('SA-SEEK.opendata', '%s|branch-targets' % fi.qual, ok, ctx.loc(fi, c),
+                                  '' if ok else 'data on the original image must be sought at orig_extent_loc * block size, external data at fp_offset (got %s / %s under `%s`)' % (a, b, t)))
+                    continue
                 tgt = repr(lin(c.args[0])) if c.args else '?'
                 ok = tgt in allowed and (len(c.args) == 1 or norm(c.args[1]) in ('0', 'os.SEEK_SET'))
                 obs.append(Ob('SA-SEEK.opendata', '%s|%s' % (fi.qual, norm(c)), ok, ctx.loc(fi, c),
